@@ -468,4 +468,17 @@ def manyAttrs : List XMLAttr := (List.range 120).map (fun i => ⟨1, "", "n" ++ 
 example : manyAttrs.length > attrDupHashThreshold := by decide
 example : dupCheck (manyAttrs ++ [⟨1, "", "n7", "v"⟩]) = true ∧ dupCheck manyAttrs = false := by decide +kernel
 
+
+-- a prefixed attribute whose LOCAL name is `xmlns` is an ordinary attribute ({uri of p}xmlns), not a declaration: no prefix
+-- mapping is announced for it and it stays in the attribute list with namespace-prefixes off
+--   <a xmlns="u:d" xmlns:p="u:p" p:xmlns="v"><b/></a>
+def lookalikeDoc : Node :=
+  .elem ⟨"", "a", [.decl ⟨"", "u:d"⟩, .decl ⟨"p", "u:p"⟩, .attr "p" "xmlns"]⟩ [.elem ⟨"", "b", []⟩ []]
+
+example : TreeOK lookalikeDoc ∧ nsWellFormed false lookalikeDoc = true := by
+  refine ⟨by simp [lookalikeDoc, TreeOK, TreesOK, ItemsOK], by decide +kernel⟩
+example : (parseDoc false false lookalikeDoc).map normM =
+    [.spm "" "u:d", .spm "p" "u:p", .se ("u:d", "a", "a") [("u:p", "xmlns", "p:xmlns")],
+     .se ("u:d", "b", "b") [], .ee ("u:d", "b", "b"), .ee ("u:d", "a", "a"), .epm "p", .epm ""] := by decide +kernel
+
 end XV.Props.C06
